@@ -177,7 +177,7 @@ func (c *Ctx) sentinelErrorUncached(g *ssa.Global) bool {
 	n := 0
 	good := false
 	for _, fn := range c.ModFn {
-		allInstrs(fn, false, func(in ssa.Instruction) {
+		rawInstrs(fn, false, func(in ssa.Instruction) {
 			if st, ok := in.(*ssa.Store); ok && st.Addr == ssa.Value(g) {
 				n++
 				if call, ok := st.Val.(*ssa.Call); ok && fn.Name() == "init" {
